@@ -462,6 +462,8 @@ def executor(mode: str) -> XExecutor:
         "pickle.dumps": _uf1(z3.Function("pickle.dumps", Obj, Obj)),
     })
     ex.binops[("Path", "Div")] = b_path_div
+    # values known to be str: results of hexdigest() and of string templates (what get_readable_hash returns)
+    ex.is_string = lambda sv: z3.is_app(sv.t) and (sv.t.decl().name().startswith("fmt:") or sv.t.decl().name() in {"hexdigest", "str"})
     # Path.parent: the directory part, an uninterpreted function of the path (mkstemp's `dir=` does not enter the contract: the name it
     # returns is fresh in any directory)
     ex.rec_props = {("Path", "parent"): lambda e, o, st_: Rec("Path", {"t": z3.Function("path_parent", Obj, Obj)(o.attrs["t"])})}
